@@ -167,6 +167,33 @@ def c10_formulas(res, rec, tag=""):
             e = relerr(deg[sel], rad[sel] * 180.0 / np.pi)
             if e.size and float(np.max(e)) > 1e-12:
                 rec.violation("deg-ne-rad", f"{tag}Hxy_deg_error != 180/pi * Hxy_rad_error")
+        if res.iscsd:
+            # coherence 1 to rounding (reported a few ulp above 1: single-segment bins, y = g*x):
+            # "as coherence tends to 1" every error bar that carries a factor (1-g2) tends to 0 -
+            # it must be a finite number no larger than the textbook value at 1-g2 = 1e-9
+            g2 = np.asarray(res.coh)
+            edge = (g2 > 1) & (g2 <= 1 + 1e-9)
+            if np.any(edge):
+                rec.count("c10_bins_at_unit_coherence", int(edge.sum()))
+                ne = n[edge]
+                small = {"Hxy_dev": np.abs(np.asarray(res.Hxy))[edge] * np.sqrt(1e-9 / (2 * ne)),
+                         "Hxy_mag_error": np.sqrt(1e-9 / (2 * ne)),
+                         "Hxy_rad_error": (np.pi / 2) * np.sqrt(1e-9 / (2 * ne)),
+                         "Hxy_deg_error": 90.0 * np.sqrt(1e-9 / (2 * ne)),
+                         "coh_dev": np.sqrt(2.0) * 1e-9 / np.sqrt(ne),
+                         "coh_error": np.sqrt(2.0) * 1e-9 / np.sqrt(ne)}
+                for name in ("Gxx_dev", "Gyy_dev", "Gxy_dev", "Gxx_error", "Gyy_error", "Gxy_error",
+                             "Hxy_dev", "Hxy_mag_error", "Hxy_rad_error", "Hxy_deg_error",
+                             "coh_dev", "coh_error"):
+                    v = np.asarray(getattr(res, name))[edge]
+                    bad = ~np.isfinite(v)      # (1-g2) is rounding noise of either sign here
+                    if name in small:
+                        bad |= np.abs(v) > small[name] * 1.001 + 1e-300
+                    if np.any(bad):
+                        j = int(np.nonzero(edge)[0][int(np.argmax(bad))])
+                        rec.violation(f"errorbar-at-unit-coherence:{name}",
+                                      f"{tag}{name}[{j}]={np.asarray(getattr(res, name))[j]!r} where the "
+                                      f"coherence is 1 to rounding (coh-1={g2[j] - 1:.2e}, navg={n[j]:.0f})")
     K = np.asarray(res.K)
     lens = np.array([len(np.asarray(d)) for d in res.D])
     if np.any(np.asarray(res.navg) != K) or np.any(lens != K):
